@@ -440,7 +440,8 @@ def judge(case, impl, model):
         if cls.get("immutable"):
             if before != after:
                 fails.append((f"immutable-changed:{site}", f"{json.dumps(op)[:200]} changed an ImmutableStructure: {json.dumps(after)[:300]}"))
-            elif st["out"] == "ok" and op["op"] not in ("callNested", "take"):
+            elif st["out"] == "ok" and op["op"] != "take" and not (op["op"] == "callNested" and not S.nested_bound_now()):
+                # (a nested wrapper of a tree whose nested wrappers are scratch-bound acts on a defensive copy without raising)
                 fails.append((f"immutable-no-raise:{site}", f"{json.dumps(op)[:200]} did not raise on an ImmutableStructure"))
         else:
             b = dict(before["o"][1])
